@@ -19,9 +19,10 @@ meta = {"property": prop, "mutation": m}
 if os.path.exists(os.path.join(dst, "meta.json")):
     try: meta.update(json.load(open(os.path.join(dst, "meta.json"))))
     except Exception: pass
+if not os.path.exists(os.path.join(src, "patch.diff")): src = dst   # already imported earlier
 patch = os.path.join(src, "patch.diff")
-shutil.copy(patch, dst)
-if os.path.exists(os.path.join(src, "demo.rs")): shutil.copy(os.path.join(src, "demo.rs"), dst)
+if src != dst: shutil.copy(patch, dst)
+if src != dst and os.path.exists(os.path.join(src, "demo.rs")): shutil.copy(os.path.join(src, "demo.rs"), dst)
 if os.path.exists(os.path.join(src, "meta.txt")): meta["needs"] = open(os.path.join(src, "meta.txt")).read()[:3000]
 if confirm and os.path.isdir(wt):
     sh("git checkout -- . && git clean -fdq -e target", cwd=wt)
@@ -46,6 +47,8 @@ if confirm and os.path.isdir(wt):
 # run my checks against the mutation — in an isolated sandbox copy of /repo and /verif (so that the
 # real /repo is never touched and work in /verif can go on): /tmp/seedbox/{repo,verif}
 BOX = "/tmp/seedbox"
+for a in sys.argv:
+    if a.startswith("--box="): BOX = "/tmp/seedbox" + a.split("=")[1]
 if "--refresh" in sys.argv or not os.path.isdir(BOX + "/verif"):
     sh(f"mkdir -p {BOX} && rsync -a --delete --exclude target /repo/ {BOX}/repo/ && rsync -a --delete --exclude out --exclude seeded /verif/ {BOX}/verif/")
     sh(f"sed -i 's#path = \"/repo#path = \"{BOX}/repo#g' {BOX}/verif/harness/Cargo.toml")
@@ -56,6 +59,19 @@ assert rc == 0, out
 fired = {}
 try:
     props = sorted(f[:-5] for f in os.listdir(BOX + "/verif/props") if f.endswith(".json"))
+    # only the checks whose engines link the changed code can react (the others neither build nor run it)
+    touched = re.findall(r"^\+\+\+ b/(\S+)", open(patch).read(), re.M)
+    FDL = ["C01", "C02", "C05", "C06", "C11", "C12", "C13", "C15"]
+    DP = ["C03", "C04", "C07", "C08", "C14", "C17", "C18"]
+    rel = set([prop])
+    for t in touched:
+        if t.startswith("gsd-parser/"): rel |= {"C19", "C20"}
+        elif t.startswith("src/dp/"): rel |= set(DP)
+        elif t.endswith("live_list.rs"): rel |= {"C18"}
+        elif t.endswith("active.rs") or t.endswith("token_ring.rs"): rel |= set(FDL)
+        else: rel |= set(FDL) | set(DP) | {"C09", "C10", "C16"}
+    if "--all" not in sys.argv: props = [p for p in props if p in rel]
+    meta["checks_run"] = props
     for p in props:
         t0 = time.time()
         rc, out = sh(f"./check {p} --tier quick", cwd=BOX + "/verif", timeout=3000)
@@ -73,6 +89,6 @@ finally:
     sh(f"git -C {BOX}/repo checkout -- .")
 meta["checks_fired"] = fired
 meta["caught_by_own_property"] = prop in fired and "no-failing-input-found" not in fired[prop]["line"]
-meta["what_i_ran"] = "tools/seed_eval.py: patch applied to /repo, every claimed quick check run, patch undone" + ("; suite+demo confirmed in scratch worktree" if confirm else "")
+meta["what_i_ran"] = "tools/seed_eval.py: patch applied to an isolated copy of /repo, every claimed quick check whose engines link the changed files run (checks_run), patch undone" + ("; suite+demo confirmed in scratch worktree" if confirm else "")
 json.dump(meta, open(os.path.join(dst, "meta.json"), "w"), indent=1)
 print(prop, m, "fired:", {k: ("concrete" if "no-failing" not in v["line"] else "corr-break") for k, v in fired.items()}, {k: meta.get(k) for k in ("suite_with_patch", "demo_with_patch_fails", "demo_without_patch_passes")})
